@@ -763,6 +763,8 @@ func c16UnrelatedRun(c c16Unrelated, r *hx.Rec) error {
 	var longs, shorts sync.WaitGroup
 	var mu sync.Mutex
 	var shortErr string
+	pending := make([]time.Time, c.Shorts) // (under mu) per short goroutine: start of the command it is in (zero: none)
+	stalledFor := make([]time.Duration, c.Longs)
 	for i := 0; i < c.Longs; i++ {
 		longs.Add(1)
 		go func(i int) {
@@ -773,6 +775,13 @@ func c16UnrelatedRun(c c16Unrelated, r *hx.Rec) error {
 				return
 			}
 			longRes[i] = status(bp)
+			mu.Lock()
+			for _, since := range pending {
+				if !since.IsZero() && time.Since(since) > stalledFor[i] {
+					stalledFor[i] = time.Since(since) // the longest time one short command has been under way
+				}
+			}
+			mu.Unlock()
 		}(i)
 	}
 	for j := 0; j < c.Shorts; j++ {
@@ -780,12 +789,16 @@ func c16UnrelatedRun(c c16Unrelated, r *hx.Rec) error {
 		go func(j int) {
 			defer shorts.Done()
 			for k := 0; k < c.Reps; k++ {
+				mu.Lock()
+				pending[j] = time.Now()
+				mu.Unlock()
 				bp, err := intoto.RunCommand([]string{emit, "o:100", "e:10", fmt.Sprintf("x:%d", k%2)}, "")
+				mu.Lock()
+				pending[j] = time.Time{}
 				if err != nil || status(bp) != fmt.Sprint(k%2) {
-					mu.Lock()
 					shortErr = fmt.Sprintf("short command %d/%d: error %v, by-products %v", j, k, err, bp)
-					mu.Unlock()
 				}
+				mu.Unlock()
 			}
 		}(j)
 	}
@@ -797,8 +810,14 @@ func c16UnrelatedRun(c c16Unrelated, r *hx.Rec) error {
 		return fmt.Errorf("%s", shortErr)
 	}
 	for i, s := range longRes {
+		if s != "0" && stalledFor[i] < 15*time.Second {
+			// the short commands were still coming back, just not fast enough for the 40 s: a slow machine, no finding
+			r.Unasserted()
+			hx.HarnessError("C16 unrelated-commands: the short commands took longer than 40 s although none of them was under way for more than 15 s (machine too slow for this part)")
+			return nil
+		}
 		if s != "0" {
-			return fmt.Errorf("long command %d ended with %s: the file it waited for is written once all %d x %d short commands of the other goroutines have returned - they had not, 40 s after it started (a short command's call did not come back while unrelated commands were running)", i, s, c.Shorts, c.Reps)
+			return fmt.Errorf("long command %d ended with %s: the file it waited for is written once all %d x %d short commands of the other goroutines have returned - they had not, 40 s after it started, and one of them - a command that writes 110 bytes and exits - had then been under way for %.0f s (a short command's call does not return while unrelated commands are running)", i, s, c.Shorts, c.Reps, stalledFor[i].Seconds())
 		}
 	}
 	return nil
